@@ -1266,12 +1266,12 @@ def format_printf(fmt, args):
                 buf += v
             elif conv == 'c' and isinstance(v, int) and spec == '%c':
                 buf += chr(v & 0xff)
-            elif conv in 'duixX' and isinstance(v, int) and not isinstance(v, bool):
+            elif conv in 'duixXo' and isinstance(v, int) and not isinstance(v, bool):
                 import re as _re
-                m_ = _re.fullmatch(r'%([-0 +#]*)(\d*)(?:hh|h|ll|l|q|j|z|t)?([duixX])', spec)
+                m_ = _re.fullmatch(r'%([-0 +#]*)(\d*)(?:hh|h|ll|l|q|j|z|t)?([duixXo])', spec)
                 if m_:
                     fl, wd, cv = m_.groups()
-                    if cv in 'uxX' and v < 0:
+                    if cv in 'uxXo' and v < 0:
                         v = v & 0xffffffff if 'll' not in spec and 'l' not in spec else v & 0xffffffffffffffff
                     buf += ('%' + fl + wd + ('d' if cv in 'dui' else cv)) % v
                 else:
